@@ -139,6 +139,9 @@ struct htp_connp_t {
      */
     bstr *in_header;
 
+    /** Set when a folded line has been added to in_header; cleared when that header is processed. */
+    int in_header_folded;
+
     /** Ongoing inbound transaction. */
     htp_tx_t *in_tx;
 
